@@ -253,8 +253,11 @@ def run_universe(R, seed, uid, tier):
                             return
                         if isinstance(val, tuple) and val and val[0] == 'COUNT':
                             cur = av
-                            for k in path:
-                                cur = cur[k]
+                            try:
+                                for k in path:
+                                    cur = cur[k]
+                            except (KeyError, IndexError, TypeError):
+                                continue
                             if not cur:
                                 continue
                             val = [cur[i % len(cur)] for i in range(val[1])]
@@ -460,8 +463,11 @@ def run_inheritance(R, spec):
                     for val, label in refval.boundary_values(rng, lt):
                         if isinstance(val, tuple) and val and val[0] == 'COUNT':
                             cur = av
-                            for k in path:
-                                cur = cur[k]
+                            try:
+                                for k in path:
+                                    cur = cur[k]
+                            except (KeyError, IndexError, TypeError):
+                                continue
                             if not cur:
                                 continue
                             val = [cur[i % len(cur)] for i in range(val[1])]
